@@ -11,11 +11,25 @@
       substitution, so arguments (identifiers, literals, comments) are inserted untouched; `tpl_lower_eq` states it for
       every template method and dialect of the regenerated table.  `hash_case_free` (C07.case_option_irrelevant): same
       fingerprint under both options.
+      **`keyword_case_statement`, `keyword_case_migration`** (Proofs/CaseOnly): for every dialect, every statement
+      (identifiers, literals, comments, type names of any spelling) and every migration, the text printed under the
+      lower-case option and the text printed without it are **equal up to ASCII case**, and fail with the same message
+      when the renderer fails.  The option reaches the text through `Globals.tpl` (the template is lower-cased *before*
+      substitution, so the arguments are inserted untouched) and `Globals.kw` (option keywords) only; `fmt.Sprintf`'s
+      scanner sees the same verbs in a template and in its lower-casing because no `%` of a regenerated template is
+      followed by a capital `S`, `D`, `T` (`templates_ok`: kernel evaluation over `Generated/Facts.lean`, so a changed
+      template is re-checked on every run).  Hypothesis: an index type given by the user, which becomes part of
+      the template, does not contain `%S`, `%D` or `%T`.  (The first proof needed a second hypothesis, no `stripPk`
+      definition: the MODIFY of a column that is a key on both sides cut the first occurrence of the rendered keyword
+      out of the definition, and a comment containing the words was hit first — `comment 'the' primary key`.  Run on
+      the real code the excluded point was a genuine defect; it is repaired, the model follows, the hypothesis is gone
+      and the `#guard` on `exStrip` below now holds.)
   Decided on every run by the struct suite (same declaration under both case options: equal up to ASCII case, quoted
   segments identical) and by the pair/script suites under both options.
 -/
 import SqlizeModel.Impl.Builder
 import SqlizeModel.Props.C07
+import SqlizeModel.Proofs.CaseOnly
 
 namespace Sqlize.C10
 open Sqlize Sqlize.Snake
@@ -45,5 +59,34 @@ theorem apply_only_case (d : Dialect) (method arg : String) (h : (Facts.getTpl m
 theorem hash_case_free (H : String → String) (F : String → Int) (g : Globals) (m : Migration) :
     m.hashWith H F { g with lower := true } = m.hashWith H F { g with lower := false } :=
   C07.case_option_irrelevant H F g m
+
+/-- keyword case, one statement: equal up to ASCII case, for every dialect and every argument -/
+theorem keyword_case_statement (g : Globals) (s : Stmt) (hu : s.usingOK g.dialect = true) :
+    (s.render { g with lower := true }).map toLowerAscii = (s.render { g with lower := false }).map toLowerAscii :=
+  render_case_only g s hu
+
+/-- keyword case, a whole migration -/
+theorem keyword_case_migration (g : Globals) (tables : List (List Stmt))
+    (h : ∀ ss ∈ tables, ∀ s ∈ ss, s.usingOK g.dialect = true) :
+    (renderMigration { g with lower := true } tables).map toLowerAscii =
+      (renderMigration { g with lower := false } tables).map toLowerAscii :=
+  migration_case_only g tables h
+
+-- non-vacuity: a statement with an identifier, a literal and a comment in mixed case meets the hypotheses, the two texts
+-- differ (the keywords) and agree up to case; the arguments are the same in both
+def exStmt : Stmt :=
+  .createTable "Users" 8 [{ name := "Id", typ := "int(11)", opts := [{ kind := .notNull }] },
+    { name := "Name", typ := "VARCHAR(64)", opts := [{ kind := .default, dflt := .str "It's Me" }, { kind := .comment, text := "The NAME" }] }] []
+example : exStmt.usingOK .mysql = true ∧ (Stmt.createIndex "t" "i" ["a"] false "HASH").usingOK .mysql = true := by decide
+#guard (exStmt.render { lower := true }).toOption != (exStmt.render { lower := false }).toOption
+#guard ((exStmt.render { lower := true }).toOption.map toLowerAscii) == ((exStmt.render { lower := false }).toOption.map toLowerAscii)
+#guard (exStmt.render { lower := true }).toOption ==
+  some "create table `Users` (\n `Id`       int(11) not null,\n `Name`     VARCHAR(64) default 'It''s Me' comment 'The NAME'\n);"
+-- the MODIFY of a column that is a key on both sides and whose comment contains the words: the option is skipped, the
+-- comment is untouched (before the repair the lower-case text was `comment 'the' primary key`)
+def exStrip : Stmt :=
+  .modifyColumn "t" { name := "id", typ := "int(11)", opts := [{ kind := .comment, text := "the primary key" }, { kind := .primaryKey }], stripPk := true }
+#guard ((exStrip.render { lower := true }).toOption.map toLowerAscii) == ((exStrip.render { lower := false }).toOption.map toLowerAscii)
+#guard (exStrip.render { lower := true }).toOption == some "alter table `t` modify column `id` int(11) comment 'the primary key';"
 
 end Sqlize.C10
